@@ -338,7 +338,7 @@ def run_gen(ctx, rng, cfgs, name, walks=None, L=12, min_emit=4, ids=("m1", "m2",
     if walks:
         g = vlib.run_tlc(ctx, FAMILY, "GenRun", cfg, mode="sim", simulate="num=%d" % walks, depth=12 * L + 20, workers=1, timeout=timeout, name=name, files=files)
     else:
-        g = vlib.run_tlc(ctx, FAMILY, "GenRun", cfg, workers=2, timeout=timeout, name=name, files=files, heap="6g")
+        g = vlib.run_tlc(ctx, FAMILY, "GenRun", cfg, workers=2 if ctx.thorough else 1, timeout=timeout, name=name, files=files, heap="6g")
     if g.timed_out or g.violated or g.errors:
         raise vlib.Inconclusive("GenValBounds %s failed: violated=%s errors=%s (see %s/tlc.out)" % (name, g.violated, g.errors[:2], g.dir))
     return g.printed("SCN"), g.generated, g.distinct
@@ -531,8 +531,9 @@ def selftest(ctx):
     want |= {(2, "P_X10a_ValidatorBound"), (2, "P_X10a_GlobalBound")}
     T += [_reset(3, gthr=2, vals=[V(2, "T1", thr=2), V(3, "T2", inl=True)]),
           _ln(3, 1, "msg", [_e("Arr", "m1", 1, 1), _e("Val", "m1", 1, 2), _e("Enter", "m1", 1, 3, v=2)], _x(g=1, vt=(-1, 1, 0))),
-          _ln(3, 2, "msg", [_e("Arr", "m2", 2, 4), _e("Val", "m2", 2, 5), _e("Rej", "m2", 2, 6, why="T")], _x(g=1, vt=(-1, 1, 0)))]
-    want |= {(3, "P_X10b_ThrottleExact")}
+          _ln(3, 2, "msg", [_e("Arr", "m2", 2, 4), _e("Val", "m2", 2, 5), _e("Rej", "m2", 2, 6, why="T"), _e("Ctx", "m1", 2, 7, v=2, how="cancel")],
+              _x(g=1, vt=(-1, 1, 0)))]
+    want |= {(3, "P_X10b_ThrottleExact"), (3, "P_X10e_Deadline")}
     T += [_reset(4, qcap=2),
           _ln(4, 1, "msg", [_e("Arr", "n1", 1, 1), _e("Val", "n1", 1, 2), _e("Enter", "n1", 1, 3, v=3)], _x()),
           _ln(4, 2, "msg", [_e("Arr", "n2", 2, 4)], _x(q=1)),
@@ -557,8 +558,7 @@ def selftest(ctx):
     T += [_reset(8, gthr=2, vals=tv),
           _ln(8, 1, "msg", [_e("Arr", "m1", 1, 1), _e("Val", "m1", 1, 2), _e("Enter", "m1", 1, 3, v=2, dl=9000, t=1000)], _x(g=1, vt=(-1, 1, 0))),
           _ln(8, 2, "adv", [_e("Ctx", "m1", 2, 4, v=2, how="deadline", t=10000)], _x(g=1, vt=(-1, 1, 0)), t=11000),
-          _ln(8, 3, "msg", [_e("Arr", "m2", 3, 5), _e("Val", "m2", 3, 6), _e("Enter", "m2", 3, 7, v=2, dl=TMO, t=11100), _e("Ctx", "m2", 3, 8, v=2, how="cancel", t=11100),
-                            _e("Rej", "m2", 3, 9, why="I", t=11100)], _x(g=1, vt=(-1, 2, 0)), t=11200),
+          _ln(8, 3, "msg", [_e("Arr", "m2", 3, 5), _e("Val", "m2", 3, 6), _e("Enter", "m2", 3, 7, v=2, dl=TMO, t=11100), _e("Rej", "m2", 3, 9, why="I", t=11100)], _x(g=1, vt=(-1, 2, 0)), t=11200),
           _ln(8, 4, "adv", [], _x(g=1, vt=(-1, 2, 0)), t=40000)]
     want |= {(8, "P_X10e_Deadline"), (8, "P_X10e_NoAbandon"), (8, "P_X10e_Fires")}
     # 9: accounting: delivered twice, duplicate of something never validated, wrong cause, penalty for a throttled message, event loop dead
@@ -594,8 +594,11 @@ def selftest(ctx):
           {"a": "opt", "scn": 13, "opt": "workers", "n": 3, "err": "", "panic": "", "got": 3},
           {"a": "opt", "scn": 14, "opt": "vconc", "n": 0, "err": "", "panic": "", "got": 5}]
     want |= {(12, "P_X10g_Options"), (14, "P_X10g_Options")}
-    res = vlib.run_tlc(ctx, FAMILY, "ValBoundsTrace", "ValBoundsTrace.cfg", mode="trace",
-                       files={"trace.ndjson": "".join(json.dumps(l) + "\n" for l in T)}, timeout=180, name="tv-selftest")
+    for to in (300, 900):      # (a loaded box: one more try with a longer limit)
+        res = vlib.run_tlc(ctx, FAMILY, "ValBoundsTrace", "ValBoundsTrace.cfg", mode="trace",
+                           files={"trace.ndjson": "".join(json.dumps(l) + "\n" for l in T)}, timeout=to, name="tv-selftest")
+        if res.hw is not None:
+            break
     got = {(v["scn"], v["pred"]) for v in res.printed("VIOL")}
     if res.hw is None or res.hw[0] < res.hw[1] or got != want:
         raise vlib.Inconclusive("ValBoundsTrace self-test: missing %s, unexpected %s (hw=%s, see %s/tlc.out)" %
